@@ -209,3 +209,12 @@ package object
 //@ func (*Server).Replicate
 //@   property C31
 //@   opt immutable=Signature.Scheme,ReplicateRequest.Signature
+
+// ---- C29 ("a request that fails ... gets an error status"): the answer to a Put stream is built
+// also when the stream ended before any message arrived - there is no request then (nil): what
+// the answer needs of the request it reads through the nil-safe getters, never through a field.
+// (No-panic sweep of the one function, restricted to field addresses.)
+//@ func (*Server).sendPutResponse
+//@   property C29
+//@   sweep nil.fieldaddr
+//@   valid s != nil
